@@ -794,9 +794,9 @@ class C08(Suite):
     def model_line(self, c):
         if c["mode"] == "e":
             edges = ",".join(f"{s}.{sym}>{t}" for s, sym, t in c["edges"]) or "-"
-            return f"eng {c['kinds']} {c['terminal']} {edges} {c['input'] or '-'}"
+            return f"c08.eng {c['kinds']} {c['terminal']} {edges} {c['input'] or '-'}"
         if c["mode"] == "n":
-            return "scan " + nest_request(c["tree"]).hex()
+            return "c08.scan " + nest_request(c["tree"]).hex()
         res = self._res(c)
         if res["tagline"] is None:
             return "c08-not-run"
